@@ -20,7 +20,7 @@ def search(ctx, res):
     # extended failing-input search with the model-independent monitor: fresh cases, no Lean
     ctx2 = type(ctx)(ctx.prop, ctx.tier, ctx.seed + 1)
     ctx2.scale = ctx.scale
-    r = market_checks.run_market_property(ctx2, PROP, n_quick=1500, model_available=False)
+    r = market_checks.run_market_property(ctx2, PROP, n_quick=3000, model_available=False, sweep_share=0.6)
     res["search_note"] = "extended search: %d further histories, %d monitor checks, no failing input" % (
         r["evaluations"], r["monitor_checks"])
     return r["violations"]
